@@ -17,11 +17,24 @@ pub struct Cx<'a> {
     pub rep: &'a Report,
     pub n: AtomicU64,
     pub reported: AtomicU64,
+    /// a repetition of the Comm-B sections under another header context: no part lines
+    pub quiet: bool,
+    /// 1 = every frame; n = every n-th frame built (quick tier, repetitions under other header contexts)
+    pub thin: u64,
+    pub seq: AtomicU64,
+}
+
+thread_local! {
+    /// header context of the Comm-B replies built by this thread: (FS, DR, UM, adversarial altitude)
+    static HDR: std::cell::Cell<(u8, u8, u8, bool)> = const { std::cell::Cell::new((0, 0, 0, false)) };
 }
 
 /// decode a frame to JSON; a rejected or panicking frame is a violation of
 /// class `<field>:rejected` / panic
 fn dj(cx: &Cx, field: &str, f: &[u8]) -> Option<Value> {
+    if cx.thin > 1 && cx.seq.fetch_add(1, Ordering::Relaxed) % cx.thin != 0 {
+        return None;
+    }
     cx.n.fetch_add(1, Ordering::Relaxed);
     set_case_bytes(3, f);
     match guarded(|| Message::try_from(f).map_err(|e| e.to_string())) {
@@ -144,7 +157,7 @@ fn callsigns(cx: &Cx) {
                 }
             }
             for df in [20u8, 21] {
-                let f = df20_21(df, 0, 0, 0, if df == 20 { ac13_q(35000) } else { id13(1, 2, 3, 4) }, &mb_bds20(&cs), ADDR);
+                let f = commb_frame(df, &mb_bds20(&cs));
                 if let Some(j) = dj(cx, "callsign:bds20", &f) {
                     text(cx, "callsign:bds20", &j, &["bds20", "callsign"], &want, &f);
                 }
@@ -405,8 +418,18 @@ fn bds62(cx: &Cx) {
     cx.rep.part("BDS 6,2", cx.n.load(Ordering::Relaxed), json!({}));
 }
 
+/// A DF20 / DF21 reply carrying `mb` under the thread's header context. The header is context for the payload
+/// readers (flight status, downlink request, and the altitude that decides whether the payload may be labelled
+/// BDS 0,5): with the adversarial altitude the header carries exactly the altitude that the payload would hold if
+/// it were read as an airborne position.
 fn commb_frame(df: u8, mb: &[u8; 7]) -> Vec<u8> {
-    df20_21(df, 0, 0, 0, if df == 20 { ac13_q(35000) } else { id13(1, 2, 3, 4) }, mb, ADDR)
+    let (fs, dr, um, adversarial) = HDR.with(|h| h.get());
+    let mut code = if df == 20 { ac13_q(35000) } else { id13(1, 2, 3, 4) };
+    if adversarial && df == 20 {
+        let ac12 = ((mb[1] as u16) << 4) | (mb[2] >> 4) as u16;
+        code = ((ac12 & 0xfc0) << 1) | (ac12 & 0x3f);
+    }
+    df20_21(df, fs, dr, um, code, mb, ADDR)
 }
 
 fn bds40(cx: &Cx) {
@@ -430,7 +453,9 @@ fn bds40(cx: &Cx) {
             }
         }
     }
-    cx.rep.part("BDS 4,0", cx.n.load(Ordering::Relaxed), json!({}));
+    if !cx.quiet {
+        cx.rep.part("BDS 4,0", cx.n.load(Ordering::Relaxed), json!({}));
+    }
 }
 
 /// compare one register member; `inside`: the payload is inside the plausibility
@@ -512,7 +537,9 @@ fn bds50(cx: &Cx) {
             }
         }
     }
-    cx.rep.part("BDS 5,0", cx.n.load(Ordering::Relaxed), json!({}));
+    if !cx.quiet {
+        cx.rep.part("BDS 5,0", cx.n.load(Ordering::Relaxed), json!({}));
+    }
 }
 
 /// a Mach code that is plausible for an indicated airspeed (about FL250 in ISA)
@@ -581,7 +608,9 @@ fn bds60(cx: &Cx) {
             }
         }
     }
-    cx.rep.part("BDS 6,0", cx.n.load(Ordering::Relaxed), json!({}));
+    if !cx.quiet {
+        cx.rep.part("BDS 6,0", cx.n.load(Ordering::Relaxed), json!({}));
+    }
 }
 
 /// DF20 payload labelled BDS 0,5 only when its altitude equals the header's
@@ -644,7 +673,7 @@ pub fn run(ctx: &Ctx, rep: &Report) {
     rep.assume("sentinel codes (0 = no information, status bit clear, all-ones track-rate magnitude, all-zero / all-one vertical-rate magnitudes in BDS 6,0) and supersonic velocity subtypes are not in the property's quantifier");
     rep.assume("altitudes <= 0 ft or above 65,535 ft may be reported unavailable; selected altitudes are encoded from the 100-ft grid by rounding to the nearest step");
     rep.assume("BDS 5,0 / 6,0: inside a conservative plausibility envelope (|roll| <= 45 deg, gs <= 550 kt, TAS 100-480 kt within 150 kt of gs, IAS 100-450 kt with Mach consistent with ISA, |vertical rate| <= 5000 ft/min) the register must be reported; outside it only 'if reported, then correct'");
-    let cx = Cx { rep, n: AtomicU64::new(0), reported: AtomicU64::new(0) };
+    let cx = Cx { rep, n: AtomicU64::new(0), reported: AtomicU64::new(0), quiet: false, thin: 1, seq: AtomicU64::new(0) };
     addresses(ctx, &cx);
     callsigns(&cx);
     altitudes(&cx);
@@ -656,6 +685,26 @@ pub fn run(ctx: &Ctx, rep: &Report) {
     bds50(&cx);
     bds60(&cx);
     df20_as_bds05(&cx);
+    // the Comm-B registers again under every other header context: all flight statuses, all downlink requests, two
+    // utility messages, and the adversarial header altitude (one context per worker thread at a time)
+    {
+        let mut contexts: Vec<(u8, u8, u8, bool)> = Vec::new();
+        contexts.extend((1..8u8).map(|fs| (fs, 0, 0, false)));
+        contexts.extend((1..32u8).map(|dr| (0, dr, 0, false)));
+        contexts.extend([(0, 0, 1, false), (0, 0, 0x3f, false), (0, 0, 0, true), (5, 4, 0x15, true)]);
+        let before = cx.n.load(Ordering::Relaxed);
+        par_items(ctx.threads, contexts.len(), |i| {
+            HDR.with(|h| h.set(contexts[i]));
+            let c2 = Cx { rep, n: AtomicU64::new(0), reported: AtomicU64::new(0), quiet: true, thin: if ctx.thorough() { 1 } else { 7 }, seq: AtomicU64::new(i as u64) };
+            bds40(&c2);
+            bds50(&c2);
+            bds60(&c2);
+            HDR.with(|h| h.set((0, 0, 0, false)));
+            cx.n.fetch_add(c2.n.load(Ordering::Relaxed), Ordering::Relaxed);
+            cx.reported.fetch_add(c2.reported.load(Ordering::Relaxed), Ordering::Relaxed);
+        });
+        rep.part("BDS 4,0 / 5,0 / 6,0 under every other header context (FS 1..7, DR 1..31, UM, adversarial altitude)", cx.n.load(Ordering::Relaxed) - before, json!({"contexts": contexts.len(), "every_nth_frame": if ctx.thorough() { 1 } else { 7 }}));
+    }
     let n = cx.n.load(Ordering::Relaxed);
     let ok = cx.reported.load(Ordering::Relaxed);
     rep.outcome("value reported and equal", ok);
@@ -681,7 +730,7 @@ pub fn replay(w: &Value, rep: &Report) {
     // decode and show what is reported; the full comparison needs the encoded
     // value, which the witness carries in `expect`
     let f = unhex(w["frame"].as_str().unwrap_or(""));
-    let cx = Cx { rep, n: AtomicU64::new(0), reported: AtomicU64::new(0) };
+    let cx = Cx { rep, n: AtomicU64::new(0), reported: AtomicU64::new(0), quiet: false, thin: 1, seq: AtomicU64::new(0) };
     let field = w["field"].as_str().unwrap_or("replay").to_string();
     if let Some(j) = dj(&cx, &field, &f) {
         let e = &w["expect"];
